@@ -49,6 +49,7 @@ def run(ctx):
                      "fault kinds.")
     ctx.floor = 18
     P = ctx.prog
+    wrappers(ctx, ['keys::dkg::part2', 'keys::dkg::part3'])
     p2 = ctx.anchor(DKG + "part2")
     if p2:
         v = FnView.get(P, p2)
